@@ -78,3 +78,15 @@ package vgirpc
 //@   property C21
 //@   at store ClientBatch.Metadata assert [notokens] value == metadata && (has(value, MetaStreamState) ==> value[MetaStreamState] == "") && (has(value, MetaCallState) ==> value[MetaCallState] == "")
 //@   at store parsedClientStream.token assert [cursorfromresponse] value == token && value != ""
+
+// rpcErrorFromMetadata: a server exception surfaces as a typed error, never nil; parseIPCStream
+// builds it from the metadata of the very batch whose log level is EXCEPTION. (That its message,
+// request id and kind are that batch's own is not provable here: json.Unmarshal is an unknown call
+// and havocs the heap the fresh error lives in.)
+//
+//@ func rpcErrorFromMetadata
+//@   property C21
+//@   ensures [typed] result != nil
+//@ func (*HttpClient).parseIPCStream
+//@   property C21
+//@   at call rpcErrorFromMetadata assert [exceptionbatch] arg0 == metadata && level == "EXCEPTION"
